@@ -3,7 +3,7 @@
 use crate::core::{Chooser, Core, Granularity, Handle, Policy, Stall, Status, Tid, CRASH_MSG};
 use crate::gen::{gen_change, gen_workspace, Workspace};
 use crate::hashseed;
-use crate::query::{gen_query, panic_msg, run_query, QResult, Query};
+use crate::query::{gen_query, panic_msg, run_query, QKind, QResult, Query};
 use crate::rng::{mix, Rng};
 use ide::verif as hooks;
 use serde_json::{json, Value};
@@ -46,6 +46,9 @@ pub struct Plan {
     pub initial: Workspace,
     pub ops: Vec<HostOp>,
     pub decisions: Option<Vec<String>>,
+    /// Readers run on OS threads that are reused within the run when idle (as a server's worker
+    /// pool does): whatever a query leaves behind on its thread is there for the next one.
+    pub reuse_threads: bool,
 }
 
 impl Plan {
@@ -53,7 +56,7 @@ impl Plan {
         json!({
             "property": self.property, "engine": "ide-sim", "seed": self.seed, "run": self.run,
             "hash_seed": self.hash_seed,
-            "knobs": {"granularity": self.gran.name(), "lru": self.lru, "policy": self.policy},
+            "knobs": {"granularity": self.gran.name(), "lru": self.lru, "policy": self.policy, "reuse_threads": self.reuse_threads},
             "initial": self.initial.to_json(),
             "workload": self.ops.iter().map(|op| match op {
                 HostOp::Spawn{name, queries, hold, crash_at} => json!({"op":"spawn","name":name,
@@ -112,6 +115,7 @@ impl Plan {
                     .map(|s| s.as_str().unwrap_or("").to_string())
                     .collect()
             }),
+            reuse_threads: v["knobs"]["reuse_threads"].as_bool().unwrap_or(false),
         }
     }
 }
@@ -159,6 +163,16 @@ fn draw_queries(rng: &mut Rng, w: &Workspace, lo: usize, hi: usize, pool: &mut V
     v
 }
 
+/// `f0` calls `f1` calls ... `f<n>`, which returns an Int or a String.
+fn chain_module(n: usize, string: bool) -> String {
+    let mut s = String::new();
+    for k in 0..n {
+        s += &format!("pub fn f{k}() {{\n  f{}()\n}}\n\n", k + 1);
+    }
+    s += &format!("pub fn f{n}() {{\n  {}\n}}\n", if string { "\"x\"" } else { "1" });
+    s
+}
+
 /// Now and then a change lists a file more than once: earlier texts first, the final text last.
 fn gen_via(rng: &mut Rng, cur: &Workspace, next: &Workspace) -> Vec<(u32, String)> {
     if !rng.chance(1, 5) {
@@ -194,11 +208,31 @@ pub fn gen_plan(property: &str, seed: u64, run: u64, thorough: bool) -> Plan {
     };
     let policy = Policy::draw(&mut rng.clone(), 200).name();
     let hash_seed = rng.next();
-    let initial = gen_workspace(&mut rng);
+    let mut initial = gen_workspace(&mut rng);
+    // One C12 run in a hundred is a marathon: hundreds of rounds of one or two short readers on
+    // reused threads, each interrupted by the next change - what a worker thread of a server goes
+    // through in an afternoon. Its first module is a long call chain whose last function flips
+    // its type with every change, so that every reader re-infers the whole chain, nested as
+    // deep as the chain is long, and the cancellation arrives somewhere inside.
+    let mut marathon = !c11 && rng.chance(1, if thorough { 60 } else { 100 });
+    let mut chain: Option<(u32, usize)> = None;
+    if marathon {
+        match initial.module_files().first().copied() {
+            Some(f) => {
+                let n = rng.range(8, 36);
+                initial.files.get_mut(&f).unwrap().1 = chain_module(n, false);
+                chain = Some((f, n));
+            }
+            None => marathon = false,
+        }
+    }
+    // a marathon is pointless unless readers can be interrupted inside their queries
+    let gran = if marathon { *rng.pick(&[Granularity::All, Granularity::All, Granularity::CheckOnly, Granularity::EveryK(3)]) } else { gran };
     let mut cur = initial.clone();
     let mut ops = Vec::new();
     let mut pool: Vec<Query> = Vec::new();
     let mut reader_no = 0;
+    let mut chain_reader_no = 0;
     let mut spawn = |rng: &mut Rng, cur: &Workspace, ops: &mut Vec<HostOp>, pool: &mut Vec<Query>, max_q: usize| {
         reader_no += 1;
         let queries = draw_queries(rng, cur, 1, max_q, pool);
@@ -244,13 +278,47 @@ pub fn gen_plan(property: &str, seed: u64, run: u64, thorough: bool) -> Plan {
             queries: draw_queries(&mut rng, &cur, 4, 16, &mut pool),
         });
     } else {
-        let rounds = rng.range(1, if thorough { 6 } else { 4 });
+        let rounds = if marathon { rng.range(120, if thorough { 400 } else { 260 }) } else { rng.range(1, if thorough { 6 } else { 4 }) };
+        let mut flipped = false;
         for _ in 0..rounds {
-            for _ in 0..rng.range(1, if thorough { 6 } else { 4 }) {
-                spawn(&mut rng, &cur, &mut ops, &mut pool, 5);
+            for _ in 0..(if marathon { rng.range(1, 2) } else { rng.range(1, if thorough { 6 } else { 4 }) }) {
+                if let Some((f, _)) = chain {
+                    if !cur.module_files().contains(&f) {
+                        chain = None;
+                    }
+                }
+                match chain {
+                    Some((f, n)) if rng.chance(3, 4) => {
+                        // ask for the type of a function near the head of the chain
+                        let k = rng.below(n.min(4));
+                        let text = &cur.files[&f].1;
+                        let pos = text.find(&format!("fn f{k}(")).map_or(0, |i| i + 3) as u32;
+                        chain_reader_no += 1;
+                        ops.push(HostOp::Spawn {
+                            name: format!("M{chain_reader_no}"),
+                            queries: vec![Query { kind: if rng.chance(3, 4) { QKind::Hover } else { QKind::SignatureHelp }, file: f, pos }],
+                            hold: 0,
+                            crash_at: None,
+                        });
+                    }
+                    _ => spawn(&mut rng, &cur, &mut ops, &mut pool, 5),
+                }
                 if rng.chance(1, 3) {
                     ops.push(HostOp::Yield);
                 }
+            }
+            if let (Some((f, n)), true) = (chain, rng.chance(5, 6)) {
+                // the writer dawdles for a while, so that the change finds the readers anywhere
+                // between the head and the end of the chain
+                for _ in 0..rng.range(0, 4 * n) {
+                    ops.push(HostOp::Yield);
+                }
+                flipped = !flipped;
+                let mut next = cur.clone();
+                next.files.get_mut(&f).unwrap().1 = chain_module(n, flipped);
+                ops.push(HostOp::Apply { next: next.clone(), kind: "edit.flip_type_at_chain_end".into(), full: false, via: Vec::new() });
+                cur = next;
+                continue;
             }
             let step = gen_change(&mut rng, &cur);
             let via = gen_via(&mut rng, &cur, &step.next);
@@ -278,6 +346,7 @@ pub fn gen_plan(property: &str, seed: u64, run: u64, thorough: bool) -> Plan {
         initial,
         ops,
         decisions: None,
+        reuse_threads: !c11 && (marathon || rng.chance(1, 2)),
     }
 }
 
@@ -606,6 +675,7 @@ fn host_main(core: &Arc<Core>, plan: &Plan, versions: &Arc<Vec<Workspace>>, shar
     host.apply_change(plan.initial.full_change());
     let mut version = 0usize;
     let mut reader_ord = 0u64;
+    let mut workers: Vec<(std::sync::mpsc::Sender<Box<dyn FnOnce() + Send>>, Tid)> = Vec::new();
     for op in &plan.ops {
         hooks::named("host:op");
         match op {
@@ -640,24 +710,47 @@ fn host_main(core: &Arc<Core>, plan: &Plan, versions: &Arc<Vec<Workspace>>, shar
                     core.with(|st| st.threads.get_mut(&tid).unwrap().crash_at = Some(*c));
                 }
                 reader_ord += 1;
-                let j = {
+                let job: Box<dyn FnOnce() + Send> = {
                     let core = core.clone();
                     let shared = shared.clone();
                     let (name, queries, hold) = (name.clone(), queries.clone(), *hold);
                     let domain = 100 + reader_ord;
-                    std::thread::Builder::new()
-                        .name(name.clone())
-                        .stack_size(16 << 20)
-                        .spawn(move || {
-                            hashseed::set_domain(domain);
-                            let _ident = hooks::enter(core.ident(tid));
-                            reader_main(&core, tid, &name, version, snap, &queries, hold, &shared);
-                            drop(_ident);
-                            core.mark_done(tid);
-                        })
-                        .unwrap()
+                    Box::new(move || {
+                        hashseed::set_domain(domain);
+                        let _ident = hooks::enter(core.ident(tid));
+                        reader_main(&core, tid, &name, version, snap, &queries, hold, &shared);
+                        drop(_ident);
+                        core.mark_done(tid);
+                    })
                 };
-                shared.lock().unwrap().joins.push(j);
+                // an idle worker of this run (lowest index first: a function of the simulated
+                // state only), else a new OS thread
+                let idle = if plan.reuse_threads {
+                    workers.iter().position(|(_, t)| core.with(|st| st.threads.get(t).map_or(true, |th| th.status == Status::Done)))
+                } else {
+                    None
+                };
+                match idle {
+                    Some(i) => {
+                        workers[i].1 = tid;
+                        let _ = workers[i].0.send(job);
+                    }
+                    None => {
+                        let (tx, rx) = std::sync::mpsc::channel::<Box<dyn FnOnce() + Send>>();
+                        let j = std::thread::Builder::new()
+                            .name(name.clone())
+                            .stack_size(16 << 20)
+                            .spawn(move || {
+                                while let Ok(job) = rx.recv() {
+                                    job();
+                                }
+                            })
+                            .unwrap();
+                        let _ = tx.send(job);
+                        workers.push((tx, tid));
+                        shared.lock().unwrap().joins.push(j);
+                    }
+                }
             }
         }
     }
